@@ -4,7 +4,7 @@ Import ListNotations.
 From Verif Require Import SendReq.Model SendReq.ProofsBound SendReq.ProofsSelect SendReq.ProofsLoop.
 
 Section Gen.
-Variable once : bool.
+Variable fixed : bool.
 
 Definition att_all (Q : bool -> bool -> bool -> Prop) (evs : list event) : Prop :=
   Forall (fun e => match e with EAtt _ a b d => Q a b d | _ => True end) evs.
@@ -99,7 +99,7 @@ Qed.
 Definition is_region_err (o : outcome) : bool := match o with OSuccess | ORpcErr _ | ODeadline _ => false | _ => true end.
 
 Lemma handle_q c s t o i :
-  match handle once c s t o i with
+  match handle fixed c s t o i with
   | HRetry s' evs => q_retry s' = q_retry s /\ q_stale s' = q_stale s /\ (q_rr s = false -> q_rr s' = false)
   | HDone r evs => match r with RSuccess _ => o = OSuccess | RRegionErr j => j = i /\ is_region_err o = true | _ => True end
   end.
@@ -115,13 +115,13 @@ Proof. unfold after_send. destruct (rt_eqb _ _); auto. Qed.
 (* write commands never leave flagged as replica read or stale read *)
 Lemma loop_write c script : c_read c = false -> c_stale c = false -> forall s prev i,
   q_rr s = false -> q_stale s = false ->
-  att_all (fun rr st _ => rr = false /\ st = false) (fst (loop_gen once c script s prev i)).
+  att_all (fun rr st _ => rr = false /\ st = false) (fst (loop_gen fixed c script s prev i)).
 Proof.
   intros R ST. induction script as [|o rest IH]; intros s prev i X Y; rewrite loop_unfold;
-    pose proof (pre_spec once c s prev i) as P;
-    assert (P' : match pre once c s prev i with HRetry s' _ => q_stale s' = q_stale s /\ (q_rr s = false -> q_rr s' = false) | HDone _ _ => True end)
-      by (unfold pre; destruct prev as [[t o']|]; [pose proof (handle_q c s t o' (pred i)) as HQ; destruct (handle once c s t o' (pred i)); tauto | auto]);
-    destruct (pre once c s prev i) as [s1 evs1|r evs1]; try (subst evs1; constructor); destruct P as [_ P2]; destruct P' as [P3 P4]; cbv zeta;
+    pose proof (pre_spec fixed c s prev i) as P;
+    assert (P' : match pre fixed c s prev i with HRetry s' _ => q_stale s' = q_stale s /\ (q_rr s = false -> q_rr s' = false) | HDone _ _ => True end)
+      by (unfold pre; destruct prev as [[t o']|]; [pose proof (handle_q c s t o' (pred i)) as HQ; destruct (handle fixed c s t o' (pred i)); tauto | auto]);
+    destruct (pre fixed c s prev i) as [s1 evs1|r evs1]; try (subst evs1; constructor); destruct P as [_ P2]; destruct P' as [P3 P4]; cbv zeta;
     set (s1' := if 0 <? i then set_q_retry true s1 else s1);
     assert (X1 : q_rr s1' = false /\ q_stale s1' = false) by (subst s1'; destruct (0 <? i); cbn; split; auto; congruence);
     pose proof (sel_phase_spec c s1') as Q; pose proof (sel_phase_q c s1') as Q'; destruct (sel_phase c s1') as [s2 t evs2|r evs2].
@@ -135,18 +135,18 @@ Proof.
                 att_all (fun rr st _ => rr = false /\ st = false) (evs1 ++ evs2 ++ EAtt t (q_rr s2) (q_stale s2) (q_retry s2) :: evs)).
     { intros evs HE. apply att_all_app; [now apply att_all_noatt|]. apply att_all_app; [now apply att_all_noatt|]. apply att_all_cons; auto. }
     destruct o; try (cbn [fst]; apply G; constructor);
-      destruct (loop_gen once c rest (after_send s2 t) _ (S i)) as [evs r]; cbn [fst] in *; apply G; assumption.
+      destruct (loop_gen fixed c rest (after_send s2 t) _ (S i)) as [evs r]; cbn [fst] in *; apply G; assumption.
 Qed.
 
 (* every re-send carries the retry marker *)
 Lemma loop_retry c script : forall s prev i, (0 < i \/ q_retry s = true) ->
-  att_all (fun _ _ rty => rty = true) (fst (loop_gen once c script s prev i)).
+  att_all (fun _ _ rty => rty = true) (fst (loop_gen fixed c script s prev i)).
 Proof.
   induction script as [|o rest IH]; intros s prev i Hi; rewrite loop_unfold;
-    pose proof (pre_spec once c s prev i) as P;
-    assert (P' : match pre once c s prev i with HRetry s' _ => q_retry s' = q_retry s | HDone _ _ => True end)
-      by (unfold pre; destruct prev as [[t o']|]; [pose proof (handle_q c s t o' (pred i)) as HQ; destruct (handle once c s t o' (pred i)); tauto | auto]);
-    destruct (pre once c s prev i) as [s1 evs1|r evs1]; try (subst evs1; constructor); destruct P as [_ P2]; cbv zeta;
+    pose proof (pre_spec fixed c s prev i) as P;
+    assert (P' : match pre fixed c s prev i with HRetry s' _ => q_retry s' = q_retry s | HDone _ _ => True end)
+      by (unfold pre; destruct prev as [[t o']|]; [pose proof (handle_q c s t o' (pred i)) as HQ; destruct (handle fixed c s t o' (pred i)); tauto | auto]);
+    destruct (pre fixed c s prev i) as [s1 evs1|r evs1]; try (subst evs1; constructor); destruct P as [_ P2]; cbv zeta;
     set (s1' := if 0 <? i then set_q_retry true s1 else s1);
     assert (X1 : q_retry s1' = true)
       by (subst s1'; destruct (0 <? i) eqn:E; cbn; auto; destruct Hi as [Hi|Hi]; [apply Nat.ltb_lt in Hi; congruence|congruence]);
@@ -160,7 +160,7 @@ Proof.
                 att_all (fun _ _ rty => rty = true) (evs1 ++ evs2 ++ EAtt t (q_rr s2) (q_stale s2) (q_retry s2) :: evs)).
     { intros evs HE. apply att_all_app; [now apply att_all_noatt|]. apply att_all_app; [now apply att_all_noatt|]. apply att_all_cons; auto. congruence. }
     destruct o; try (cbn [fst]; apply G; constructor);
-      destruct (loop_gen once c rest (after_send s2 t) _ (S i)) as [evs r]; cbn [fst] in *; apply G; assumption.
+      destruct (loop_gen fixed c rest (after_send s2 t) _ (S i)) as [evs r]; cbn [fst] in *; apply G; assumption.
 Qed.
 
 End Gen.
